@@ -183,6 +183,11 @@ def _length_locals(b):
                     and t["args"][0]["place"]["l"] in derived and not [p for p in t["args"][0]["place"]["p"] if p != "*"]:
                 derived.add(t["dest"]["l"])
                 changed = True
+            # a grid of positions between two lengths is an array of lengths
+            if callee(t)[2] in ("linspace", "range", "view", "deref", "borrow") and any(
+                    a.get("k") in ("copy", "move") and a["place"]["l"] in derived and not [p for p in a["place"]["p"] if p != "*"] for a in t["args"]):
+                derived.add(t["dest"]["l"])
+                changed = True
     return derived
 
 
@@ -233,6 +238,20 @@ def _weights_of(F, b):
             if name == "from_elem" and len(t["args"]) == 2:
                 f = _Factors(b, lens, (), F, vidx)
                 f.visit(t["args"][1])
+                return vidx, f
+            if name in ("mapv", "mapv_into", "map") and len(t["args"]) == 2 and t["args"][0].get("k") in ("copy", "move") \
+                    and (b.opty(t["args"][0]) or {}).get("s", "").find("ndarray") >= 0:
+                # weights written as a function of the grid positions: `grid.mapv(|r| 4 pi r^2 dr)` — the element is a length
+                cb = F.body(boolsum.closure_def_of_type(b.opty(t["args"][1])) or "")
+                if cb is None:
+                    return vidx, None
+                recv = {t["args"][0]["place"]["l"]}
+                for d2 in defs.of(t["args"][0]["place"]["l"]):
+                    if d2[0] == "stmt" and d2[4]["k"] == "ref":
+                        recv.add(d2[4]["place"]["l"])
+                elem_is_length = bool(recv & lens)
+                f = _Factors(cb, {2} if elem_is_length else set(), len_names, F, vidx)
+                f.visit({"k": "copy", "place": {"l": 0, "p": []}})
                 return vidx, f
             if name in ("from_shape_fn", "map") and len(t["args"]) == 2:
                 cb = F.body(boolsum.closure_def_of_type(b.opty(t["args"][1])) or "")
